@@ -40,12 +40,18 @@ class Lock:
 PARAMS_C = r'''
 #include "modules/iauth.h"
 #include "src/log.h"
+#include "src/config.h"
 #include <stdio.h>
 #define P(n) printf("Definition " #n " : nat := %d.\n", (int)(n))
 int main(void) {
     printf("(* GENERATED from /repo headers by lib/common.py on every run; do not edit *)\n");
     P(NICKLEN); P(USERLEN); P(HOSTLEN); P(REALLEN); P(ACCOUNTLEN); P(CLASSLEN); P(IRC_NTOP_MAX); P(ROUTINGLEN);
     P(IAUTH_NUM_FLAGS); P(LOG_NUM_SEVERITIES);
+#ifdef CONF_MAX_DEPTH
+    P(CONF_MAX_DEPTH);
+#else
+    printf("Definition CONF_MAX_DEPTH : nat := 0.   (* src/config.h defines no nesting limit *)\n");
+#endif
     return 0;
 }
 '''
